@@ -9,7 +9,7 @@ def one(diff):
     try:
         dst=os.path.join(tmp,'repo')
         shutil.copytree('/repo',dst,ignore=shutil.ignore_patterns('.git','__pycache__','.ruff_cache','.benchmarks','*.egg-info','img','oneliner_tests'))
-        r=subprocess.run(['patch','-p1','-s','-i',os.path.abspath(diff)],cwd=dst,capture_output=True,text=True)
+        r=subprocess.run(['patch','-p1','-s','--no-backup-if-mismatch','-i',os.path.abspath(diff)],cwd=dst,capture_output=True,text=True)
         if r.returncode: return diff,{'error':'patch failed '+r.stdout[-200:]}
         res={}
         for p in [f'C{i:02d}' for i in range(1,18)]:
